@@ -7,7 +7,7 @@ from .. import scenario, ms
 ID = "C09"
 LEVEL = "exploration"
 RULE = ("cases are programs (all enumerated control-flow skeletons to depth 2 (quick) / 3 (thorough) with and without a "
-        "function wrapper; the example corpus; Hypothesis programs from the generators of C01/C07/C08/C12/C13/C15/C17); each is "
+        "function wrapper; the example corpus; an operand-shape matrix - every pair of (literal, variable, element, field, method call, call with / without arguments, recursive self(..) with / without arguments, negation) around + * < == inside recursive functions with and without parameters; Hypothesis programs from the generators of C01/C07/C08/C12/C13/C15/C17); each is "
         "compiled to human-readable bytecode and EVERY emitted function is analysed over ALL branch outcomes (both successors of "
         "if / while / jmp_not_nil / store_skip): validity predicate = every jump target lies inside the function, execution never "
         "falls off the end, `done` and `jmp_pop n` never close more block frames than are open, two paths reaching one "
@@ -387,7 +387,32 @@ def enumerated(tier, seed):
         cases.append({"family": "skeleton", "files": {"main.ms": ms.program(stmts)[0]},
                       "origin": "skeleton %s/%s/%s%s" % (desc["loop"], "+".join(desc["wraps"]) or "-", desc["exit"], "/fn" if desc["in_fn"] else "")})
     cases += [dict(c, family="corpus") for c in c04.corpus_cases()]
+    cases += operand_shape_cases()
     return cases
+
+
+def operand_shape_cases():
+    """every pair of OPERAND SHAPES around a binary operator, inside a recursive function with and without parameters: literal,
+    variable, element, field, method call, call with / without arguments, recursive `self(..)` with / without arguments.  What an
+    operand leaves on (or takes from) the operand stack depends on its shape; the instruction after it must find what it needs."""
+    pre = ("class Ob {\n\tn: int\n\tconstructor(self) {\n\t\tself.n = 2\n\t}\n\tfn m(self) -> int {\n\t\treturn self.n\n\t}\n}\n"
+           "ob = Ob()\nls: [int...] = [4, 5]\ncnt = 0\ng0 = fn() -> int {\n\treturn 3\n}\nh1 = fn(a: int) -> int {\n\treturn a + 1\n}\n")
+    zero = ["1", "cnt", "ls[0]", "ob.n", "ob.m()", "g0()", "h1(2)", "self()", "(self())", "-cnt"]
+    one = ["1", "k", "ls[0]", "ob.n", "ob.m()", "g0()", "h1(k)", "self(k - 1)", "(self(k - 1))", "-k"]
+    out = []
+    for op in ("+", "*", "<", "=="):
+        for lshape in range(len(zero)):
+            for rshape in range(len(zero)):
+                tail = "print r0()\n" if op in ("+", "*") else "print r0()\n"
+                ret = "int" if op in ("+", "*") else "bool"
+                base = "0" if ret == "int" else "false"
+                src0 = pre + "r0 = fn() -> %s {\n\tmodify cnt = cnt + 1\n\tif cnt > 2 {\n\t\treturn %s\n\t}\n\treturn %s %s %s\n}\n" % (ret, base, zero[lshape], op, zero[rshape]) + tail
+                src1 = pre + "r1 = fn(k: int) -> %s {\n\tif k <= 0 {\n\t\treturn %s\n\t}\n\treturn %s %s %s\n}\nprint r1(2)\n" % (ret, base, one[lshape], op, one[rshape])
+                if ret == "bool" and ("self" in zero[lshape] or "self" in zero[rshape]):
+                    continue          # a bool-returning function cannot be an operand of < / ==
+                out.append({"family": "operand-shapes", "files": {"main.ms": src0}, "origin": "shapes: %s %s %s in fn()" % (zero[lshape], op, zero[rshape])})
+                out.append({"family": "operand-shapes", "files": {"main.ms": src1}, "origin": "shapes: %s %s %s in fn(k)" % (one[lshape], op, one[rshape])})
+    return out
 
 
 def strategy(tier):
